@@ -43,6 +43,8 @@ def ground(d):
             v = tok[6:]
             a = float(v.split(",")[0]) if "," in v else AXES.get(v, 6.4e6)
     k = d["k"][0] / d["k"][1] if d["k"] else 1.0
+    if d["latts"] != "None":
+        k = math.cos(math.radians(d["latts"]))      # close enough for a tolerance
     return a * k
 
 
